@@ -20,12 +20,21 @@ TIERS = {
 }
 RULE = ('case = a forest of 1-3 typed roots (object of a schema class incl. field-less classes '
         'and classes with required members nested 2-3 levels, pg.Dict or pg.List bound to a '
-        'generated value spec incl. zero-field Dict specs; flags allow_partial x '
-        'pg.allow_partial scope; a share of roots is first constructed from an invalid '
+        'generated value spec incl. zero-field Dict specs, numeric bounds of exactly 0 / 0.0 / '
+        '-0.0 on either or both sides, regular expressions; flags allow_partial x '
+        'scope programs: the plain pg.allow_partial(True) scope or a stack of 1-3 '
+        'pg.allow_partial scopes over {True, False, None} with scopes left again before the '
+        'call (reference: the innermost open scope applies, None = the objects\' own flags), '
+        'pg.enable_type_check stacks whose innermost open scope is True; a share of roots is '
+        'first constructed from an invalid '
         'value) and a history mixing valid and invalid writes through every write path of '
         'the operation table, writes that make required members missing (addressed through '
         'the member or an ancestor), writes to undeclared keys, moves of live nodes/roots '
-        'into typed fields, schema-less symbolic operands for typed fields, retries of a '
+        'into typed fields, schema-less symbolic operands for typed fields, pg.Dict/pg.List '
+        'operands typed with a spec RELATED to the receiving one (same shape; bounds incl. 0, '
+        'expressions, sizes, noneable/frozen/default kept or changed) holding a value of their '
+        'own spec, objects constructed without required arguments inside the scopes of the '
+        'step, retries of a '
         'rejected write with the same operand objects, later use of rejected operands, and '
         'derived-state queries (is_partial, sym_missing, ...) between steps; schema_ok '
         're-validates every typed node after every step (partiality is decided by walking '
@@ -36,9 +45,12 @@ RULE = ('case = a forest of 1-3 typed roots (object of a schema class incl. fiel
         'operation/outcome sequence).')
 REQUIRED_COUNTERS = ['schema_ok_evals', 'schema_ok_members', 'steps_ok', 'class_default_checks',
                      'steps_rejected', 'rejected_unchanged_checks', 'rejected_operand_checks',
-                     'retries', 'typed_moves', 'observations', 'zero_field_nodes']
+                     'retries', 'typed_moves', 'observations', 'zero_field_nodes',
+                     'scope_programs', 'related_typed_operands']
 ASSUMPTIONS = [
-    'type checking is on (pg.enable_type_check(False) is never entered)',
+    'type checking is on for every call (pg.enable_type_check(False) is only entered and left again before the call, or masked by an inner pg.enable_type_check(True))',
+    'explicitly made partial = written inside scopes whose innermost OPEN pg.allow_partial scope is True (a root object stays so when it is moved into another tree); under an effective None the objects\' own allow_partial flags decide, under False no write may add a missing member (but what was partial-allowed before stays tolerated)',
+    'a pg.Object member whose own allow_partial flag is set may be partial inside a holder that is not (the library never aligns the flag of an object with its holder\'s); the allow_partial flag of a typed pg.Dict/pg.List that the library set while the container was only read as an operand for another tree is NOT taken as "explicitly made partial" by its holder',
     'acceptance oracle: ValueSpec.apply on a detached plain copy of the stored member',
     'for batch operations (multi-path rebind, update, extend, slice assignment, |=, +=) a valid prefix may have been applied; only single-target rejected writes must leave the JSON of the tree unchanged',
     'a missing required member is tolerated below a root that was written to inside pg.allow_partial(True) (or derives from one), below a node whose allow_partial flag (own or ancestor) is set, and below a location whose declared spec does not constrain completeness (Any, Union, undeclared); everywhere else it is a violation, whatever is_partial of the library says',
@@ -176,9 +188,53 @@ def spec_root(rng):
   return None
 
 
+def frozen_holder_spec():
+  """Fields frozen to a container / an object (fresh spec objects per call)."""
+  return [('fl', T.List(T.Int()).freeze([1, 2])),
+          ('fd', T.Dict([('k', T.Int()), ('v', T.List(T.Int(), default=[0]))]).freeze({'k': 1})),
+          ('fo', T.Object(M.ReqLeaf).freeze(M.ReqLeaf(y=1))),
+          ('n', T.Int(min_value=0, default=0)),
+          ('ol', T.List(T.Int(), max_size=3, default=[]))]
+
+
+def frozen_root(rng):
+  """A value whose schema freezes fields to symbolic values (list, dict, object):
+  an object of a class that is created for this case only (its schema is class
+  state; a defect may change it), or a pg.Dict bound to such a spec."""
+  kw = {}
+  if rng.random() < 0.6:
+    kw['n'] = rng.randint(0, 5)
+  if rng.random() < 0.5:
+    kw['ol'] = [rng.randint(0, 9) for _ in range(rng.randint(0, 3))]
+  if rng.random() < 0.6:
+    @pg.members(frozen_holder_spec())
+    class FrozenHolder(pg.Object):
+      pass
+    return (f'[frozen-members] FrozenHolder({kw}) (class of this case; fl/fd/fo frozen to '
+            '[1, 2] / {k=1} / ReqLeaf(y=1))'), FrozenHolder(**kw)
+  spec = T.Dict(frozen_holder_spec())
+  return f'[frozen-members] pg.Dict({kw}, value_spec={spec!r})', pg.Dict(kw, value_spec=spec)
+
+
+def frozen_member_kind(root):
+  """Kind of a symbolic member stored under a frozen field of `root`'s tree that
+  differs from the frozen value (its interior was written), else None."""
+  try:
+    for p, k, ch, _ in TM.walk(root):
+      f = p.sym_attr_field(k)
+      if f is not None and f.value.frozen and f.value.has_default and not pg.eq(
+          ch, f.value.default):
+        return kind_of(ch)
+  except Exception:  # pylint: disable=broad-except
+    pass
+  return None
+
+
 def make_root(rng):
   """Returns (description, value)."""
   r = rng.random()
+  if r < 0.035:
+    return frozen_root(rng)
   if r < 0.3:
     d = D.typed_obj(rng, 'Typed2' if rng.random() < 0.3 else None)
     return D.show(d), D.build(d)
@@ -421,8 +477,7 @@ def diagnose(spec, v, out, depth=0):
   if depth > 10 or getattr(spec, 'transform', None) is not None:
     return
   if SM.is_missing(v):
-    if not spec.has_default:
-      out.add('missing')
+    out.add('missing')           # incomplete content (or a default not filled in)
     return
   if spec.frozen:
     if spec.has_default and not pg.eq(v, spec.default):
@@ -433,7 +488,9 @@ def diagnose(spec, v, out, depth=0):
       out.add('none')
     return
   if isinstance(spec, (T.Int, T.Float)):
-    if isinstance(v, bool) or not isinstance(v, (int, float)) or (
+    if isinstance(v, bool):
+      pass                       # left to the library (bool is an int)
+    elif not isinstance(v, (int, float)) or (
         isinstance(spec, T.Int) and not isinstance(v, int)):
       out.add('type')
     elif v == v and ((spec.min_value is not None and v < spec.min_value) or
@@ -579,8 +636,9 @@ class Values(H.ValueSource):
   constructor call omits required arguments."""
 
   def __init__(self, forest, target, p_move=0.14, p_symbolic=0.3, stats=None, p_typed=0.08,
-               p_partial_obj=0.12, **kw):
+               p_partial_obj=0.12, p_huge=0.05, **kw):
     super().__init__(forest, target, **kw)
+    self.p_huge = p_huge
     self.p_move, self.p_symbolic, self.stats = p_move, p_symbolic, stats
     self.p_typed, self.p_partial_obj = p_typed, p_partial_obj
 
@@ -591,6 +649,12 @@ class Values(H.ValueSource):
         field = node.sym_attr_field(key)
       except Exception:  # pylint: disable=broad-except
         field = None
+    if (field is not None and isinstance(field.value, T.Float) and not field.value.frozen and
+        rng.random() < self.p_huge):
+      # an int that no float can represent: not a value of any Float spec
+      if self.stats is not None:
+        self.stats['huge_int_operands'] += 1
+      return ['v', rng.choice([10**400, -10**400])]
     if field is not None and base_spec_kind(field.value):
       r = rng.random()
       if r < self.p_move:
@@ -711,9 +775,11 @@ def foreign_spec_kind(forest, at):
   return None
 
 
-def shortcut_reasons(forest, ridx):
-  """Reference reasons (see diagnose) why containers of root `ridx` that kept a
-  value_spec of their own are not values of the spec of the field they are in."""
+def shortcut_reasons(forest, ridx, operands=()):
+  """Reference reasons (see diagnose) why typed containers of root `ridx` are not
+  values of the Dict/List spec of the field they are stored in: the containers
+  that kept a value_spec of their own, the operand objects of the step and (an
+  operand that had a parent is stored as a copy) containers with an operand's spec."""
   out = set()
   root = forest[ridx] if ridx < len(forest) else None
   if not isinstance(root, pg.Symbolic):
@@ -726,8 +792,9 @@ def shortcut_reasons(forest, ridx):
         f = p.sym_attr_field(k)
       except Exception:  # pylint: disable=broad-except
         continue
-      if (f is not None and isinstance(f.value, (T.Dict, T.List)) and
-          ch.value_spec is not f.value):
+      if f is not None and isinstance(f.value, (T.Dict, T.List)) and (
+          ch.value_spec is not f.value or any(
+              ch is x or ch.value_spec is getattr(x, 'value_spec', None) for x in operands)):
         diagnose(f.value, ch, out)
   except Exception:  # pylint: disable=broad-except
     pass
@@ -984,6 +1051,9 @@ def run_case(ctx, i):
   rng = ctx.rng
   c = ctx.counters
   label, root = make_root(rng)
+  case_cls = type(root) if type(root).__name__ == 'FrozenHolder' else None
+  frozen_case = label.startswith('[frozen-members]')
+  case_defaults = SM.defaults_snapshot([case_cls]) if case_cls else None
   forest = [root]
   labels = [label]
   if rng.random() < 0.55:
@@ -1003,13 +1073,59 @@ def run_case(ctx, i):
   for r in forest:
     c['root:' + type(r).__name__] += 1
   taint = set()        # indices of roots that were explicitly made partial
+  tainted_objs = {}    # id -> those root objects: they stay "explicitly made
+                       # partial" when they are moved into another tree
+
+  def mark_partial(j):
+    taint.add(j)
+    if isinstance(forest[j], pg.Symbolic):
+      tainted_objs[id(forest[j])] = forest[j]
+
+  def under_tainted(node):
+    n, hops = node, 0
+    while n is not None and hops < 200:
+      if id(n) in tainted_objs:
+        return True
+      n, hops = n.sym_parent, hops + 1
+    return False
+
+  related_objs = {}    # id -> operands that were typed with a related spec
+  flipped = {}         # id -> typed containers whose allow_partial flag was set by
+                       # the library while they were only READ as an operand
+
+  def unflipped_flags(forest_):
+    return [n for _, _, n in H.all_nodes(forest_)
+            if isinstance(n, (pg.Dict, pg.List)) and n.value_spec is not None
+            and not n.allow_partial]
+
+  def note_flips(pre, step):
+    """Containers of OTHER trees than the written one whose flag is set now."""
+    target = forest[step['at'][0]] if step['at'][0] < len(forest) else None
+    for n in pre:
+      try:
+        if n.allow_partial and n.sym_root is not target and any(
+            n.sym_root is r for r in forest):
+          flipped[id(n)] = n
+          c['operand_flag_flips'] += 1
+      except Exception:  # pylint: disable=broad-except
+        pass
+
+  def flipped_kind(ridx):
+    root = forest[ridx] if ridx < len(forest) else None
+    if not flipped or not isinstance(root, pg.Symbolic):
+      return None
+    for n, _ in TM.nodes_of(root):
+      if id(n) in flipped and flipped[id(n)] is n and n.allow_partial:
+        return kind_of(n)
+    return None
 
   def tolerate(ridx, keys, node):
-    return ridx in taint or SM.reached_unconstrained(forest[ridx], keys)
+    return (ridx in taint or SM.reached_unconstrained(forest[ridx], keys) or
+            (bool(tainted_objs) and under_tainted(node)))
 
   def check():
     c['schema_ok_evals'] += 1
-    return SM.schema_ok_nodes(forest, c, tolerate)
+    return SM.schema_ok_nodes(forest, c, tolerate, object_flags=True)
 
   c['zero_field_nodes'] += zero_field_count(forest)
   first = check()
@@ -1037,7 +1153,7 @@ def run_case(ctx, i):
     found = collections.OrderedDict()
     in_partial = eff_partial(step['scopes']) is True
     if in_partial:
-      taint.add(step['at'][0])       # values were explicitly made partial
+      mark_partial(step['at'][0])    # values were explicitly made partial
       c['partial_scope_writes'] += 1
     if scope_suffix(step['scopes']):
       c['scope_programs'] += 1
@@ -1109,9 +1225,9 @@ def run_case(ctx, i):
       if o.effect == 'new' and any(result is r for r in forest) and (
           step['at'][0] in taint or in_partial or step.get('src_partial')):
         # derived from a value that was explicitly made partial
-        taint.add(next(j for j, r in enumerate(forest) if r is result))
+        mark_partial(next(j for j, r in enumerate(forest) if r is result))
     c['schema_ok_evals'] += 1
-    for clause, detail in SM.schema_ok_nodes(view, c, tolerate):
+    for clause, detail in SM.schema_ok_nodes(view, c, tolerate, object_flags=True):
       found.setdefault(clause, detail)
     if found and not mech.startswith('typed-operand['):
       fk = foreign_spec_kind(forest, step['at'])
@@ -1124,7 +1240,10 @@ def run_case(ctx, i):
       # WHY the content is not a value of the receiving spec, by reference rules:
       # the mechanisms of known defect B keep the plain key, anything else (a
       # numeric range, a regular expression, ...) is a mechanism of its own.
-      why = shortcut_reasons(forest, step['at'][0])
+      why = set()
+      for j in range(len(forest)):
+        why |= shortcut_reasons(forest, j, [x for _, x, _ in operands_of(record)])
+      witness['reference_reasons'] = sorted(why)
       c['typed_operand_diagnoses'] += 1
       other = [x for x in REASON_ORDER if x in why]
       if other:
@@ -1133,13 +1252,26 @@ def run_case(ctx, i):
         # (for foreign-spec the kept spec itself is the explanation: later writes
         # were validated against it)
         mech += '/unexplained'
-    elif found and scope_suffix(step['scopes']):
-      # a stack of allow_partial scopes: clauses that would not fire if every
-      # value counted as explicitly made partial are attributed to the stack
+    elif found and (flipped or scope_suffix(step['scopes'])):
+      # Clauses that would not fire if every value counted as explicitly made
+      # partial are attributed to (a) a typed container of this tree whose
+      # allow_partial flag the LIBRARY set when the container was passed as an
+      # operand of a write to another tree, else (b) the stack of allow_partial
+      # scopes of the step.
       relaxed = {cl for cl, _ in SM.schema_ok_nodes(view, None, lambda *_: True)}
+      fk = flipped_kind(step['at'][0])
       for clause in found:
         if clause in ('missing-required', 'member-rejected') and clause not in relaxed:
-          mechs[clause] = mech + scope_suffix(step['scopes'])
+          mechs[clause] = f'flag-flipped[{fk}]' if fk else mech + scope_suffix(step['scopes'])
+    if 'frozen-changed' in found:
+      fmk = next((k for k in (frozen_member_kind(r) for r in view
+                              if isinstance(r, pg.Symbolic)) if k), None)
+      if fmk:
+        # the INTERIOR of a value stored under a frozen field was written
+        mechs['frozen-changed'] = f'frozen-interior[{fmk}]'
+    if 'error-class' in found:
+      # one key per exception class, whatever the operation
+      mechs['error-class'] = type(result).__name__
     for clause, detail in found.items():
       ctx.violation(clause, mechs.get(clause, mech),
                     f'after step {len(trace)}: {trace[-1]}\n{detail}', witness)
@@ -1172,7 +1304,7 @@ def run_case(ctx, i):
     elif r < 0.26:
       step = gen_move(rng, forest, c)
       c['directed:move'] += step is not None
-    elif r < 0.34:
+    elif r < 0.36:
       step = gen_typed_operand(rng, forest, c)
       c['directed:related-typed-operand'] += step is not None
     if step is not None and r >= 0.16 and rng.random() < 0.2:
@@ -1189,11 +1321,13 @@ def run_case(ctx, i):
       step['src_partial'] = bool(SM.effective_partial(src) or
                                  tolerate(step['at'][0], list(step['at'][1]), src))
     before = snapshot(forest) if single else None
+    pre_flags = unflipped_flags(forest)
     ctx.label = step['op']
     status, result = execute(forest, step, record=record)
     ctx.label = None
     H.adopt_result(forest, step, status, result)
     H.drop_moved_roots(forest)
+    note_flips(pre_flags, step)
     if any(d and d[0] == 'node' for d, _, _ in record):
       c['typed_moves'] += 1
     trace.append(O.show_step(step) + (f' -> {type(result).__name__}' if status == 'raise' else ''))
@@ -1208,6 +1342,20 @@ def run_case(ctx, i):
       mech = f'typed-operand[{typed_ops[0]}]'
       c['typed_container_operands'] += 1
     found, clean, flagged = after_step(step, status, result, before, mech, record)
+    for d, x, _ in operands_of(record):
+      if d[0] == 'T':
+        related_objs[id(x)] = x
+    if status == 'ok' and not found and any(id(x) in related_objs for _, x, _ in operands_of(record)):
+      # An accepted operand that was typed with a related spec keeps that spec
+      # (KNOWN defect B, foreign-spec: later writes to it are validated against the
+      # kept spec). The tree is rebuilt so that later findings in this tree are
+      # not attributed to the kept spec; moves of other typed roots still leave
+      # such containers in place.
+      heal_root(step['at'][0])
+      for j, r in enumerate(forest):
+        if r is result and isinstance(r, pg.Symbolic):
+          heal_root(j)             # the value returned by clone(override=...) etc.
+      c['related_operand_trees_rebuilt'] += 1
     if directed_missing and status == 'ok' and step['at'][0] not in made_partial:
       made_partial.append(step['at'][0])
     if status == 'raise' and not found and not flagged and record and rng.random() < 0.5 and (
@@ -1228,6 +1376,20 @@ def run_case(ctx, i):
       if typed_ops and status2 == 'ok':
         mech = f'typed-operand[{typed_ops[0]}]'
       found, clean, flagged = after_step(step, status2, result2, before, mech, record)
+    if case_cls is not None:
+      # the schema of the class of this case (its frozen values are class state)
+      c['case_class_default_checks'] += 1
+      changed = SM.defaults_changed(case_defaults, SM.defaults_snapshot([case_cls]))
+      for cname, path, was, is_now in changed[:1]:
+        ctx.violation('schema-default-mutated', cname,
+                      f'after step {len(trace)}: {trace[-1]}\nfrozen value of {cname}.{path} '
+                      f'was {was}, is now {is_now}', {'root': label, 'history': trace[-12:]})
+      if changed:
+        c['abandoned'] += 1
+        break                      # values of the class cannot be trusted any more
+    if 'frozen-changed' in found and frozen_case:
+      c['abandoned'] += 1
+      break
     # Rejected operands stay available: later steps may use them elsewhere.
     if not found:
       for x in clean:
@@ -1235,7 +1397,7 @@ def run_case(ctx, i):
             x.sym_parent is None):
           forest.append(x)
           if eff_partial(step['scopes']) is True:
-            taint.add(len(forest) - 1)
+            mark_partial(len(forest) - 1)
           c['operands_kept'] += 1
     if found:
       c['heals'] += 1
